@@ -264,7 +264,9 @@ def run(ch, idx, tier):
         variant = vs[ch.choose(f"client[{k}].variant", len(vs))]
         tpl = list(TEMPLATES[ch.choose(f"client[{k}].template", len(TEMPLATES))])
         share = variant != "yfactors_dt" and name in shared_projects and ch.flip(f"client[{k}].share_project", 0.5)
-        if share:
+        if "caller_edits_inputs" in tpl:
+            P = entry.project()  # a client that will edit its settings / data later owns its project
+        elif share:
             P = shared_projects[name]
             bump("probe:clients_share_project_object")
         else:
@@ -480,6 +482,15 @@ def run(ch, idx, tier):
                         co.update_outcomes()
                 for par in parset.pars.values():
                     par.meta_y_factor *= 1.25
+                    for ts_ in par.ts.values():
+                        ts_.vals = [v * 1.5 for v in ts_.vals]
+                        if ts_.assumption is not None:
+                            ts_.assumption *= 1.5
+                # ... and with its project's settings and databook
+                P.settings.update_time_vector(end=P.settings.sim_end + 3, dt=P.settings.sim_dt * 2)
+                for tdve in list(P.data.tdve.values())[:3]:
+                    for ts_ in tdve.ts.values():
+                        ts_.vals = [v * 0.5 for v in ts_.vals]
                 bump("fault:caller_edits_its_inputs_after_build")
                 # restore the caller's objects for whoever shares them; the built model / result must not have noticed
                 restore.append(True)
@@ -510,7 +521,7 @@ def run(ch, idx, tier):
                 check_result(c, R, type(c["prog_scen"]).__name__ + ".run", ref=c["scen_ref"])
             if op == "caller_edits_inputs":
                 # the edit is deliberate: re-snapshot what the caller now owns (later operations must leave THAT unchanged)
-                for k2 in ("parset", "progset", "instructions"):
+                for k2 in ("parset", "progset", "instructions", "settings", "data"):
                     if c["inputs"].get(k2) is not None:
                         c["snap"][k2] = flatten(c["inputs"][k2])
                 edited[c["k"]] = True
